@@ -67,6 +67,13 @@ func sourcesCase(c *explore.Ctx, s *explore.SubStats, side *gramSide, in sources
 		return
 	}
 	s.Validated++
+	if !want.OK {
+		// not every source is a type-system document: the concatenation is not derivable either
+		if err == nil {
+			bad("sources/accept", "ParseSchemas accepts sources whose concatenation is not derivable", "", projSDL(doc))
+		}
+		return
+	}
 	if err != nil {
 		bad("sources/reject", "each source is a derivable type-system document but ParseSchemas rejects them: "+err.Error(), want.Tree, err.Error())
 		return
@@ -172,7 +179,7 @@ func sourcesSub(c *explore.Ctx, side *gramSide, g *refgrammar.Grammar) {
 
 var sourcesExtras = []string{
 	"extend type a @ a", "extend type a { a : a }", "extend interface a @ a", "extend union a = a", "extend enum a { a }", "extend input a @ a", "extend scalar a @ a",
-	"scalar a", "enum a { a }", "directive @ a on a", "union a = a", "input a { a : a }",
+	"scalar a", "enum a { a }", "directive @ a on FIELD", "union a = a", "input a { a : a }",
 }
 
 // ---- corpus binding -----------------------------------------------------------------------
